@@ -277,9 +277,11 @@ class ModelObject:
 
         if isinstance(instance, Collection):
             # item_number (the next index used by append, part of the identifier)
-            # is not serialised: positional items are stored under "0", "1", ...
-            instance.item_number = sum(
-                1 for key in d["arguments"] if str(key).isdigit()
+            # is not serialised: positional items are stored under "0", "1", ... The next
+            # index lies above the highest one in use, so that append never overwrites an item
+            instance.item_number = max(
+                (int(key) + 1 for key in d["arguments"] if str(key).isdigit()),
+                default=0,
             )
 
         if "assertions" in d:
